@@ -1,46 +1,84 @@
-From BV Require Import Model.Blocks.
+From BV Require Import Model.Blocks Proofs.TokenGameProofs.
 
-Lemma fin_flatR r : fin (flatR r) = fin r.
-Proof. induction r; cbn [flatR fin]; auto. rewrite IHr1, IHr2. reflexivity. Qed.
+Lemma endfree_flatten b : endfree (flatten b) = endfree b.
+Proof. induction b; cbn [flatten endfree]; auto; congruence. Qed.
+
+Lemma nev_flatR r : nev r -> nev (flatR r).
+Proof.
+  induction r; cbn [nev flatR]; auto.
+  - intros [A B]. rewrite endfree_flatten. auto.
+  - intros [A B]. auto.
+  - intros [A B]. rewrite endfree_flatten. auto.
+  - intros [[A B]|[[A B]|[A B]]]; subst; cbn [flatR]; auto.
+Qed.
+
+Lemma fin_ended_flatR r : nev r -> fin (flatR r) = fin r /\ ended (flatR r) = ended r.
+Proof.
+  induction r; cbn [nev flatR fin ended]; auto.
+  - intros [A B]. destruct (IHr1 A) as [-> _], (IHr2 B) as [-> _]. auto.
+  - intros A. destruct (IHr A) as [-> E]. rewrite (nev_not_ended _ A), orb_false_r. split; auto.
+    rewrite E. apply nev_not_ended. exact A.
+  - intros [[A B]|[[A B]|[A B]]]; subst; cbn [flatR fin ended].
+    + destruct (IHr1 A) as [-> ->], (IHr2 B) as [-> ->]. auto.
+    + destruct (IHr1 A) as [-> ->]. auto.
+    + destruct (IHr2 B) as [-> ->]. auto.
+Qed.
+Lemma fin_flatR r : nev r -> fin (flatR r) = fin r.
+Proof. intros N. apply fin_ended_flatR, N. Qed.
 
 Lemma pending_flatR r : pending (flatR r) = pending r.
-Proof. induction r; cbn [flatR pending]; auto. rewrite IHr1, IHr2. reflexivity. Qed.
+Proof. induction r; cbn [flatR pending]; auto; rewrite IHr1, IHr2; reflexivity. Qed.
 
-Lemma start_flatten e b : flatR (start e b) = start e (flatten b).
+Lemma start_flatten e b : endfree b = true -> flatR (start e b) = start e (flatten b).
 Proof.
-  induction b; cbn [start flatten flatR]; auto.
-  - rewrite <- IHb1. rewrite fin_flatR. destruct (fin (start e b1)); cbn [flatR]; congruence.
-  - congruence.
-  - destruct (getv e v); auto.
-  - rewrite <- IHb. rewrite fin_flatR. destruct (fin (start e b)); cbn [flatR]; auto. destruct (getv e v); reflexivity.
-  - destruct (getv e v1), (getv e v2); cbn [orb flatR]; congruence.
+  induction b; cbn [endfree start flatten flatR]; auto; try discriminate.
+  - intros H. apply andb_prop in H. destruct H as [H1 H2].
+    rewrite <- (IHb1 H1). pose proof (nev_start e b1 H1) as N.
+    rewrite (fin_flatR _ N). rewrite (nev_not_ended _ (nev_flatR _ N)), (nev_not_ended _ N).
+    destruct (fin (start e b1)); cbn [flatR]; auto.
+  - intros H. apply andb_prop in H. destruct H as [H1 H2]. rewrite (IHb1 H1), (IHb2 H2). reflexivity.
+  - intros H. apply andb_prop in H. destruct H as [H1 H2]. destruct (getv e v); auto.
+  - intros H. rewrite <- (IHb H). pose proof (nev_start e b H) as N.
+    rewrite (fin_flatR _ N). rewrite (nev_not_ended _ (nev_flatR _ N)), (nev_not_ended _ N).
+    destruct (fin (start e b)); cbn [flatR]; auto. destruct (getv e v); reflexivity.
+  - intros H. apply andb_prop in H. destruct H as [H H3]. apply andb_prop in H. destruct H as [H1 H2].
+    destruct (getv e v1), (getv e v2); cbn [orb flatR]; rewrite ?(IHb1 H1), ?(IHb2 H2); auto.
 Qed.
 
-Lemma answer_flatR e r t : flatR (answer e r t) = answer e (flatR r) t.
+Lemma answer_flatR e r t : nev r -> flatR (answer e r t) = answer e (flatR r) t.
 Proof.
-  induction r; cbn [answer flatR]; auto.
-  - destruct (t =? t0); reflexivity.
-  - rewrite <- IHr. rewrite fin_flatR. destruct (fin (answer e r t)); cbn [flatR]; auto. apply start_flatten.
-  - congruence.
-  - rewrite <- IHr. rewrite fin_flatR. destruct (fin (answer e r t)); cbn [flatR]; auto.
-    destruct (getv e v); auto. rewrite <- start_flatten. rewrite fin_flatR.
+  induction r; cbn [nev answer flatR]; auto.
+  - intros _. destruct (t =? t0); reflexivity.
+  - intros [A B]. rewrite <- (IHr A). pose proof (nev_answer e r t A) as N.
+    rewrite (fin_flatR _ N). rewrite (nev_not_ended _ (nev_flatR _ N)), (nev_not_ended _ N).
+    destruct (fin (answer e r t)); cbn [flatR]; auto. apply start_flatten; auto.
+  - intros [A B]. rewrite (IHr1 A), (IHr2 B). reflexivity.
+  - intros [A B]. rewrite <- (IHr A). pose proof (nev_answer e r t A) as N.
+    rewrite (fin_flatR _ N). rewrite (nev_not_ended _ (nev_flatR _ N)), (nev_not_ended _ N).
+    destruct (fin (answer e r t)); cbn [flatR]; auto.
+    destruct (getv e v); auto. rewrite <- (start_flatten e body B). pose proof (nev_start e body B) as N2.
+    rewrite (fin_flatR _ N2). rewrite (nev_not_ended _ (nev_flatR _ N2)), (nev_not_ended _ N2).
     destruct (fin (start e body)); reflexivity.
+  - intros [[A B]|[[A B]|[A B]]]; subst; cbn [flatR answer]; rewrite ?(IHr1 A), ?(IHr2 B); reflexivity.
 Qed.
 
-Lemma observe_flatR ops : forall e r, observe (e, flatR r) ops = observe (e, r) ops.
+Lemma observe_flatR ops : forall e r, nev r -> observe (e, flatR r) ops = observe (e, r) ops.
 Proof.
-  induction ops as [|o ops IH]; intros e r; cbn [observe fst snd].
-  - rewrite pending_flatR, fin_flatR. reflexivity.
-  - unfold step. cbn [fst snd]. rewrite <- answer_flatR. rewrite IH. rewrite pending_flatR. reflexivity.
+  induction ops as [|o ops IH]; intros e r N; cbn [observe fst snd].
+  - unfold complete. destruct (fin_ended_flatR r N) as [-> ->]. rewrite pending_flatR. reflexivity.
+  - unfold step. cbn [fst snd]. rewrite <- (answer_flatR _ _ _ N). rewrite IH by (apply nev_answer; exact N).
+    rewrite pending_flatR. reflexivity.
 Qed.
 
-(** a program with any blocks wrapped in sub-processes, at any depth, behaves like the program with
-    their content inlined: for every initial data and every sequence of answers and writes *)
-Lemma inline_equiv b e ops : behaviour (flatten b) e ops = behaviour b e ops.
-Proof. unfold behaviour. rewrite <- start_flatten. apply observe_flatR. Qed.
+(** a program (without end events of its own) with any blocks wrapped in sub-processes, at any depth, behaves
+    like the program with their content inlined: for every initial data and every sequence of answers and writes *)
+Lemma inline_equiv b e ops : endfree b = true -> behaviour (flatten b) e ops = behaviour b e ops.
+Proof. intros H. unfold behaviour. rewrite <- (start_flatten e b H). apply observe_flatR. apply nev_start, H. Qed.
 
 Lemma flatten_wrap n b : flatten (wrap n b) = flatten b.
 Proof. induction n; cbn [wrap flatten]; auto. Qed.
+Lemma endfree_wrap n b : endfree (wrap n b) = endfree b.
+Proof. induction n; cbn [wrap endfree]; auto. Qed.
 
 Lemma flatten_idem b : flatten (flatten b) = flatten b.
 Proof. induction b; cbn [flatten]; congruence. Qed.
@@ -61,9 +99,21 @@ Fixpoint plug (c : ctx) (x : blk) : blk :=
 
 Lemma flatten_plug_wrap c n x : flatten (plug c (wrap n x)) = flatten (plug c x).
 Proof. induction c; cbn [plug flatten]; try congruence. apply flatten_wrap. Qed.
+Lemma endfree_plug_wrap c n x : endfree (plug c (wrap n x)) = endfree (plug c x).
+Proof. induction c; cbn [plug endfree]; try congruence. apply endfree_wrap. Qed.
 
-Lemma wrap_anywhere c n x e ops : behaviour (plug c (wrap n x)) e ops = behaviour (plug c x) e ops.
-Proof. rewrite <- (inline_equiv (plug c (wrap n x))), <- (inline_equiv (plug c x)), flatten_plug_wrap. reflexivity. Qed.
+Lemma wrap_anywhere c n x e ops : endfree (plug c x) = true ->
+  behaviour (plug c (wrap n x)) e ops = behaviour (plug c x) e ops.
+Proof.
+  intros H. rewrite <- (inline_equiv (plug c (wrap n x))) by (rewrite endfree_plug_wrap; exact H).
+  rewrite <- (inline_equiv (plug c x)) by exact H. rewrite flatten_plug_wrap. reflexivity.
+Qed.
+
+(* an end event inside a sub-process ends that sub-process only: the inlining is not an equivalence for such content *)
+Example inline_needs_endfree :
+  behaviour (BSeq (BSub (BEnd 1)) (BTask 2)) [] [] = ([[2]], false, []) /\
+  behaviour (flatten (BSeq (BSub (BEnd 1)) (BTask 2))) [] [] = ([[]], true, []).
+Proof. split; reflexivity. Qed.
 
 Example inline_nonvacuous :
   behaviour (BLoop 3 (BSub (BSeq (BTask 1) (BSub (BPar (BTask 2) (BTask 3)))))) [false; false; false; false]
